@@ -8,6 +8,8 @@ LEVEL = "other"
 EXPECT_FAIL = {"calculate_torsion_angle"}  # known finding: tertiary_v2 returns the negated torsion
 SMT_LEMMAS = ["mul_one", "mul_eq", "sq_one", "one_minus_sq", "prod_le_one", "sq_bound", "sumsq_nonneg", "pos_prod4", "inv_pos",
               "cancel_sq", "reversal", "mirror", "translation"]
+USER_LEMMAS = ["same_square", "atan2_same_point", "tors_reversal", "torsion_of_reversal", "inv_unique", "inv_of_positive",
+               "negated_same_norm", "nondegenerate_reversal", "general_position_reversal"]
 DEDUCTIVE = [
     {"module": "rnapolis.tertiary", "sidecar": "contracts.tertiary_c",
      "targets": ["calculate_torsion_angle_coords"] + ["lemma:" + l for l in SMT_LEMMAS]},
@@ -16,17 +18,65 @@ DEDUCTIVE = [
     # the clause C18 states for the second implementation; fails on the current tree (known finding): short budget
     {"module": "rnapolis.tertiary_v2", "sidecar": "contracts.tertiary_v2_c", "targets": ["calculate_torsion_angle"],
      "opts": {"z3_ms": 8000, "cvc5_s": 8}, "retry_unknown": False},
+    # last sentence of C18 ("Hence glycosidic chi of A-form RNA is anti ... in every table the library produces"): the users
+    # of the torsion function inherit the convention through their call sites (contracts/tertiary_users_c.py)
+    {"module": "rnapolis.tertiary", "sidecar": "contracts.tertiary_users_c",
+     "targets": ["torsion_angle", "Residue3D.find_atom", "Residue3D.__chi_purine", "Residue3D.__chi_pyrimidine", "Residue3D.chi",
+                 "Residue3D.chi_class"] + ["lemma:" + l for l in USER_LEMMAS],
+     # every obligation here is discharged in well under a second; a shorter budget keeps a failing run (changed code) fast
+     "opts": {"z3_ms": 10000, "cvc5_s": 10}},
+    {"module": "rnapolis.annotator", "sidecar": "contracts.tertiary_users_c", "targets": ["detect_cis_trans"],
+     "opts": {"z3_ms": 10000, "cvc5_s": 10}},
 ]
 TRUSTED = ["z3 5.1.0 / cvc5 1.0.3", "numpy vector algebra is exact real algebra (A-real)",
            "atan2 over the reals is invariant under positive scaling of its argument point (lemma atan2_scale, assumed)",
-           "pyvc encoding (DESIGN 2.3)"]
+           "pyvc encoding (DESIGN 2.3)",
+           "users (contracts/tertiary_users_c.py): numpy.array of a 3-element list is that vector; math.degrees / math.radians as uninterpreted "
+           "functions, math.radians strictly increasing (lemma radians_increasing_above, assumed); math.isnan(x) is true exactly for the NaN "
+           "sentinel; str.upper() exact on a single ASCII character and uninterpreted on every other string (CASE_MAP_UNINTERPRETED)",
+           "users: rnapolis.tertiary.torsion_angle called from rnapolis.annotator is used through its contract (verified target here); "
+           "Residue3D.find_atom through its contract (verified target here and in C04 / C11)"]
 ASSUMPTIONS = ["A-real: machine floats treated as mathematical reals; isnan() never true on real terms",
                "atan2(y, x) is *the* angle of the point (x, y); only scale invariance is used by the proof",
-               "rotation invariance of the IUPAC polynomials is not proved by SMT here (translation, reversal, mirror are); it is sampled by the bounded check"]
+               "rotation invariance of the IUPAC polynomials is not proved by SMT here (translation, reversal, mirror are); it is sampled by the bounded check",
+               "users: math.nan occurs only as the sentinel 'chi undefined' (returned, tested with math.isnan) and is modelled as the None of an Optional "
+               "real (MODULE_VALUES); a NaN reaching arithmetic / a comparison would be an undischarged safe.no_TypeError obligation; a returned None "
+               "and a returned NaN are not distinguished inside chi / chi_class",
+               "users: definitional lemmas torsion_of_definition (torsion_of(a1..a4) := atan2(Y, X) of the IUPAC polynomials of the four atom positions), "
+               "general_position_definition (general_position(a1..a4) := the five non-degeneracy guards of calculate_torsion_angle_coords, literally the "
+               "requires of its proved contract), first_idx_definition (least index of an atom of that name, -1 if none; find_atom is proved to return it); "
+               "Atom / Residue3D are frozen: their fields are never written (frame obligations of every target)",
+               "users: preconditions - whenever the four atoms of a torsion are present they are in general position (consecutive atoms more than 1e-6 "
+               "apart, no three consecutive ones collinear within 1e-6); on degenerate quadruples calculate_torsion_angle_coords returns 0.0, which no "
+               "clause here covers",
+               "users: cached_property Residue3D.chi is evaluated once per object: every read yields the value of the one evaluation (contract "
+               "returns_value chi_nan(r) / chi_val(r)); the ensures proved for the body are what is known about it",
+               "users: 'about -160 degrees' is read as the band [-180, -140] degrees; purine letters A G a g, pyrimidine letters C U T c u t for chi "
+               "(chi upper-cases the letter); upper-case letters only for detect_cis_trans"]
 EXPLANATION = ("Deductive: calculate_torsion_angle_coords (tertiary.py) returns atan2(Y, X) of the IUPAC polynomials on every non-degenerate input "
                "(48 obligations incl. clip-is-identity via Lagrange/Cauchy-Schwarz certificates); tertiary_v2.calculate_torsion_angle returns atan2(-Y, X) "
                "(contract @negated, proved) and therefore fails the IUPAC clause (known finding). Lemmas: reversal, mirror, translation. "
-               "Bounded: constructed dihedrals (NeRF) with random bond lengths/angles/rigid motions through both functions.")
+               "Bounded: constructed dihedrals (NeRF) with random bond lengths/angles/rigid motions through both functions. "
+               "Users of the first implementation (last sentence of C18; contracts/tertiary_users_c.py): torsion_angle returns THE torsion "
+               "(torsion_of := atan2(Y, X) of the four atom positions) of its arguments in the given order, from the proved contract of "
+               "calculate_torsion_angle_coords; Residue3D.__chi_purine / __chi_pyrimidine return the torsion O4'-C1'-N9-C4 / O4'-C1'-N1-C2 (atom table "
+               "pinned from IUPAC-IUB 1983; the reversed listing is the same angle by the proved lemmas torsion_of_reversal / nondegenerate_reversal, every "
+               "other atom or order is refused) or NaN when an atom is missing; Residue3D.chi is the purine torsion for A G a g, the pyrimidine torsion "
+               "for C U T c u t, and one of the two or NaN for any other letter (that case is not pinned by C18); Residue3D.chi_class is anti whenever "
+               "that torsion lies in [-180, -140] degrees (the A-form band) and None when chi is undefined - where syn ends and anti begins is NOT "
+               "pinned by C18 (code: syn = (-30, 120) degrees; any limits that keep the band anti satisfy the clause); detect_cis_trans answers 'c' iff "
+               "the torsion C1'(i)-N(i)-N(j)-C1'(j) (N = N9 for A G, N1 for C U T) is within 90 degrees of 0 and 't' iff it is further away (1e-6 degree "
+               "band at +-90 left open), None when an atom is missing; for other letters nothing is stated (unlike chi, detect_cis_trans does not upper-case the letter; "
+               "read_3d_structure only produces upper-case letters). "
+               "Users of the second implementation: tertiary_v2.Structure.torsion_angles (the only caller of calculate_torsion_angle: backbone table "
+               "alpha..zeta at line 281, chi at lines 302 / 313) is OUT OF REACH of the engine - rows are heterogeneous dicts with computed keys, the inner "
+               "loops over the constant table unroll to more paths than the engine explores without state merging, residues / atoms are pandas-backed and the "
+               "result is a DataFrame. By reading, all three call sites pass the atoms in IUPAC order (chi: O4'-C1'-N9-C4 / O4'-C1'-N1-C2), so every angle of "
+               "that table is the callee's value and inherits its proved negation (known finding): A-form chi appears as about +160 degrees there. Had the "
+               "function been within reach its clause would be stated relative to the callee's proved contract (@negated), so that the sign defect stays ONE "
+               "finding at calculate_torsion_angle and any other deviation of the table is a new one. Not under contract either: the inter-stem torsion "
+               "(tertiary.py calculate_inter_stem_parameters, scipy von Mises) and the BPh torsion classes (C11 detect_bph_br_classification uses the same "
+               "symbol torsion_of, left uninterpreted there).")
 
 
 def bounded(tier, seed):
